@@ -184,7 +184,25 @@ func (r *Run) execInstr(fr *Frame, st *State, reach Term, ins ssa.Instruction, o
 	case *ssa.Send:
 		return reach, false
 	case *ssa.Go:
-		// the spawned function is verified on its own; evaluate the operands only
+		// the spawned function is verified on its own; its precondition is an obligation where it is started
+		ord := 0
+		n := 0
+		for _, b := range ins.Parent().Blocks {
+			for _, x := range b.Instrs {
+				if g, ok := x.(*ssa.Go); ok {
+					if g.Pos() <= ins.Pos() {
+						n++
+					}
+				}
+			}
+		}
+		ord = n
+		r.ghostAt(fr, st, reach, fmt.Sprintf("before:go#%d", ord), ins)
+		fv := r.operand(fr, st, ins.Call.Value)
+		if fv.Kind == VFunc && fv.Fn != nil && fv.Fn.Parent() != nil {
+			r.spawnObligations(fr, st, reach, fv, ins)
+		}
+		r.ghostAt(fr, st, reach, fmt.Sprintf("go#%d", ord), ins)
 		return reach, false
 	case *ssa.Defer:
 		ent := DeferEntry{guard: tTrue, instr: ins, frame: fr}
